@@ -3,6 +3,10 @@
 import json, os, shutil, sys
 pid, m, caught = sys.argv[1], sys.argv[2], sys.argv[3]
 src = f"/tmp/seedout/{pid}/{m}"
+# round-2 sources are named <ID>-r2: keep them as seeded/<ID>/r2<m>
+if "-r" in pid:
+    base, r = pid.split("-r")
+    pid, m = base, f"r{r}{m}"
 conf = json.load(open(f"{src}/confirm.json"))
 assert conf.get("confirmed"), "not confirmed"
 dst = f"/verif/seeded/{pid}/{m}"
